@@ -16,7 +16,7 @@ func init() {
 		Technique: "narrowing-conversion sites + program-wide store set of the counted field with interprocedural length upper bounds; dominating length guards at local-route admission",
 		Explain:   "Decides, for every uintN(len(X.Routes)) conversion in the encoders of protocol.RouteAdvertise and protocol.RouteWithdraw, that the count cannot wrap: either a guard in the encoder excludes larger lengths, or every store to that Routes field anywhere in the repository stores a slice whose length is structurally bounded by the count width (chunk idiom, make sized by a narrow wire integer, a value already carried by such a field, followed through parameters to all callers). Decides that the string parameters of the local domain/forward route admission methods are stored only under a guard (direct, or through a validator whose success returns are guarded) that excludes lengths above 255, the width of their wire length prefix. Display name, path and seen-by counts (C15) and the 16 KiB frame budget are not covered.",
 		Run:       runC06,
-		SelfTests: []SelfTest{
+		SelfTests: append(c06MoreSelfTests, []SelfTest{
 			{Name: "local announcement sends the whole set in one message", ExpectRule: "C06.R1", ExpectKey: "AnnounceLocalRoutes", Edits: []Edit{
 				{File: "internal/flood/flood.go", Old: "\t\t\tSequence:          f.routeMgr.IncrementSequence(),\n\t\t\tRoutes:            routes[start:end],\n\t\t\tPath:              path,    // Keep for backwards compat", New: "\t\t\tSequence:          f.routeMgr.IncrementSequence(),\n\t\t\tRoutes:            routes,\n\t\t\tPath:              path,    // Keep for backwards compat"},
 			}},
@@ -62,7 +62,7 @@ func init() {
 				{File: "internal/protocol/frame.go", Old: "func (r *RouteWithdraw) Encode() []byte {\n", New: "func (r *RouteWithdraw) Encode() []byte {\n\tif len(r.Routes) > 255 {\n\t\tpanic(\"too many routes\")\n\t}\n"},
 				{File: "internal/flood/flood.go", Old: "\t\t\tRoutes:      routes[start:end],\n", New: "\t\t\tRoutes:      routes,\n"},
 			}},
-		},
+		}...),
 	})
 }
 
@@ -251,6 +251,7 @@ func runC06(p *kit.Program, r *kit.Report) {
 	}
 	r.Count("admission_string_parameters", nParams)
 	r.Require(nParams >= 3, "floor: %d admitted string parameters found (expected pattern, key, target)", nParams)
+	c06more(p, r, counted, owner)
 	kit.DumpObs(r)
 }
 
